@@ -561,7 +561,7 @@ func TestVerif_C08_CacheRaft(t *testing.T) {
 	b, ctl := c08RaftNode(t)
 	st := &c08Stack{Name: "cache-raft", MaxPlain: 3, HasCache: true, Hooks: &c08Hooks{}, Reset: ctl.Reset, Jitter: ctl.Jitter, Truth: ctl.truth, ClassifyStale: ctl.classifyStale}
 	open := c08RaftOpen(b, ctl, func() physical.Backend {
-		c := physical.NewCache(c08UnderCache(b, st.Hooks), 0, log.NewNullLogger(), &metrics.BlackholeSink{})
+		c := physical.NewCache(c08UnderCache(b, st.Hooks), st.CacheSize, log.NewNullLogger(), &metrics.BlackholeSink{})
 		c.SetEnabled(true)
 		st.Ground = func(ctx context.Context) (map[string]string, []string, error) {
 			c.Purge(ctx)
